@@ -60,3 +60,15 @@ claim("C11",
       "(inserted space) are witnessed by C11_refuted_sign_space and reported as KNOWN-FINDING.",
       "Rocq: finite reflection over regenerated tables + induction for plain text + reference-converter differential check",
       "DESIGN.md section 6 C11")
+claim("C12",
+      "Theorems (Coq): for every palette of valid names and every non-default colour in it, the index the encoder writes "
+      "points at the master-table entry of that very colour inside the document's dense table (unbounded over palettes); "
+      "index 0 iff default; the reader reads the emitted \\colortbl back as that dense table; a table exists iff a "
+      "non-default colour is used; finite facts on the regenerated colour and font tables (unique names, dense indices, "
+      "RGB strings, ten fonts with matching names). Against the implementation: every \\cf/\\cb/\\chcbpat/\\brdrcf index of "
+      "the parsed output is resolved through the output's own table and compared with the RGB of the colour the element "
+      "requested; thorough tier places each of the 657 colours on single-, multi-section and figure documents.",
+      "Which element requests which colour comes from the model run without colour context (attribute binding, validated "
+      "by item-level correspondence); the colour-table logic itself is not trusted on the implementation side.",
+      "Rocq proof (index-in-filtered-table lemma) + finite reflection on regenerated tables + differential check",
+      "DESIGN.md section 6 C12")
